@@ -557,3 +557,9 @@ package graphql
 //@   goensures calls(Done) == 1
 //@   at `wg.Wait()` requires added == calls(spawn)
 //@   ensures old(len(m.delayed)) > 1 ==> calls(Wait) == 1
+
+// ForName is a deterministic, read-only lookup (gqlparser): modelled by the uninterpreted function forName.
+//@ trusted (github.com/vektah/gqlparser/v2/ast.OperationList).ForName(name) (op)
+//@   ensures op == forName(recv, name)
+//@   nopanic
+//@   pure
